@@ -86,15 +86,15 @@ Lemma purge_zero_ok p p2 :
   exists sps, Forall2 sp_sim (p_species p) sps /\
     p_species p2 = filter (fun s => Z.gtb (sp_exp s) 0) sps /\
     p_detached p2 = p_detached p ++ filter (fun s => negb (Z.gtb (sp_exp s) 0)) sps /\
-    hframe o_species (p_heap p) (p_heap p2) /\ p_orgs p2 = p_orgs p /\
+    hframe pe (p_heap p) (p_heap p2) /\ p_orgs p2 = p_orgs p /\
     p_last_species p2 = p_last_species p /\ p_next_key p2 = p_next_key p.
 Proof.
   unfold purge_zero_offspring. intros H Hn. rbind H as orgs G. cbv zeta in H.
   match type of H with context [count_all ?hh _ _ _] => set (h1 := hh) in H end.
-  assert (F : hframe o_species (p_heap p) h1).
+  assert (F : hframe pe (p_heap p) h1).
   { subst h1. destruct (PrimFloat.eqb _ _); [apply hframe_refl|]. apply hframe_hsets.
     intros y Hy. apply in_map_iff in Hy. destruct Hy as (x & <- & Hx).
-    destruct (hgets_in _ _ _ _ G Hx) as [Hg _]. cbn. now rewrite (hview_get o_species _ _ _ Hg). }
+    destruct (hgets_in _ _ _ _ G Hx) as [Hg _]. cbn. now rewrite (hview_get pe _ _ _ Hg). }
   rbind H as r C. destruct r as [sps te]. apply count_all_ok in C.
   match type of H with context [filter (fun s => Z.gtb (sp_exp s) 0) ?x] => set (S := x) in H end.
   injection H as <-. exists S. cbn. splits; auto.
@@ -122,7 +122,7 @@ Record same_frame (p p5 : population) : Prop := {
   sf_species : Forall2 sp_sim (p_species p) (p_species p5);
   sf_detached : p_detached p5 = p_detached p;
   sf_orgs : p_orgs p5 = p_orgs p;
-  sf_heap : hframe o_species (p_heap p) (p_heap p5);
+  sf_heap : hframe pe (p_heap p) (p_heap p5);
   sf_last : p_last_species p5 = p_last_species p;
   sf_key : p_next_key p5 = p_next_key p }.
 
@@ -170,22 +170,22 @@ Qed.
 
 Lemma give_loop_ok o sorted : forall bi blocks sps h stolen s sps' h' st' s',
   give_loop o sorted bi blocks (sps, h, stolen) s = Ok ((sps', h', st'), s') ->
-  Forall2 sp_sim sps sps' /\ hframe o_species h h'.
+  Forall2 sp_sim sps sps' /\ hframe pe h h'.
 Proof.
   induction sorted as [|id r IH]; intros bi blocks sps h stolen s sps' h' st' s' H; cbn [give_loop] in H.
   - apply ret_ok in H. destruct H as [H _]. injection H as <- <- _. split; [apply forall2_sim_refl|apply hframe_refl].
   - destruct (sp_find sps id) as [sp|]; [|discriminate].
     destruct (Z.gtb _ _); [eapply IH; eauto|].
     mbind H as acc' s1 H1 H2.
-    assert (A : let '(sps1, h1, _) := acc' in Forall2 sp_sim sps sps1 /\ hframe o_species h h1).
+    assert (A : let '(sps1, h1, _) := acc' in Forall2 sp_sim sps sps1 /\ hframe pe h h1).
     { assert (Fin : forall n f x s0, (forall y, sp_sim y (f y)) ->
                 (let! h1 := lift (set_champ_super h sp n) in ret (sp_set sps id f, h1, x)) s0 = Ok (acc', s1) ->
-                let '(sps1, h1, _) := acc' in Forall2 sp_sim sps sps1 /\ hframe o_species h h1).
+                let '(sps1, h1, _) := acc' in Forall2 sp_sim sps sps1 /\ hframe pe h h1).
       { intros n f x s0 Hf HH. mbind HH as h1 s2 Hh HH. apply lift_ok in Hh. destruct Hh as [Hh ->].
         apply ret_ok in HH. destruct HH as [<- _]. split; [now apply forall2_sim_set|].
         eapply set_champ_super_ok; eauto. }
       assert (Id : forall s0, ret (sps, h, stolen) s0 = Ok (acc', s1) ->
-                let '(sps1, h1, _) := acc' in Forall2 sp_sim sps sps1 /\ hframe o_species h h1).
+                let '(sps1, h1, _) := acc' in Forall2 sp_sim sps sps1 /\ hframe pe h h1).
       { intros s0 HH. apply ret_ok in HH. destruct HH as [<- _]. split; [apply forall2_sim_refl|apply hframe_refl]. }
       destruct (_ && _).
       - eapply Fin; [|exact H1]. intros; apply sp_sim_exp.
@@ -212,7 +212,7 @@ Proof.
     constructor; cbn; auto.
     + eapply forall2_sim_trans; [exact St|]. eapply forall2_sim_trans; [exact G1|].
       apply forall2_sim_set. intros; apply sp_sim_exp.
-    + eapply hframe_trans; [exact G2|]. apply (hframe_hset_get o_species h2 c); [|reflexivity].
+    + eapply hframe_trans; [exact G2|]. apply (hframe_hset_get pe h2 c); [|reflexivity].
       cbn. now rewrite (hget_key _ _ _ Hk).
   - apply ret_ok in H. destruct H as [<- _]. constructor; cbn; auto.
     eapply forall2_sim_trans; eauto.
@@ -299,8 +299,8 @@ Proof.
   apply ret_ok in H. destruct H as [H _]. injection H as <- _ <-.
   (* the population handed to deltaCoding / giveBabies *)
   set (h3 := hset (p_heap p2) (o_with_popchamp c true)) in *.
-  assert (F3 : hframe o_species (p_heap p2) h3).
-  { subst h3. apply (hframe_hset_get o_species _ c); [|reflexivity]. cbn. now rewrite (hget_key _ _ _ Hkc). }
+  assert (F3 : hframe pe (p_heap p2) h3).
+  { subst h3. apply (hframe_hset_get pe _ c); [|reflexivity]. cbn. now rewrite (hget_key _ _ _ Hkc). }
   assert (SF : exists p4, same_frame p4 p5 /\ p_species p4 = p_species p2 /\ p_detached p4 = p_detached p2 /\
                           p_orgs p4 = p_orgs p2 /\ p_heap p4 = h3 /\ p_last_species p4 = p_last_species p2 /\
                           p_next_key p4 = p_next_key p2).
@@ -318,9 +318,10 @@ Proof.
     eapply sp_rel_trans; [apply sp_rel_perm, (filter_partition_perm (fun s => Z.gtb (sp_exp s) 0))|].
     rewrite <- Es, <- Ed. apply sp_rel_forall2. unfold all_sp. rewrite G2, E2.
     apply Forall2_app; [now rewrite <- E1|apply forall2_sim_refl]. }
+  assert (F25 : hframe pe (p_heap p2) (p_heap p5)).
+  { eapply hframe_trans; [exact F3|]. now rewrite <- E4. }
   assert (F5 : hframe o_species (p_heap p) (p_heap p5)).
-  { eapply hframe_trans; [exact F1|]. eapply hframe_trans; [exact F2|]. eapply hframe_trans; [exact F3|].
-    now rewrite <- E4. }
+  { eapply hframe_trans; [exact F1|]. apply hframe_pe_species. eapply hframe_trans; [exact F2|exact F25]. }
   assert (W5 : Wf (all_sp p5) (p_heap p5) (fun k => In k (rev []) \/ In k (p_orgs p5))).
   { eapply Wf_iff; [eapply Wf_ext; [eapply Wf_rel; [exact W|exact R]|apply hframe_ext, F5]|].
     intros k. cbn. rewrite G3, E3, Eo. cbn. tauto. }
